@@ -25,6 +25,7 @@ type Part struct {
 	Body     nd.Body
 	MaxDev   int
 	CutDepth int           // depth at which the tree is cut for sharding (default 2)
+	ShardLevels int        // >0: deviation-level sharding (see nd.Options)
 	Workers  int           // worker processes (default 16; 1: in one process)
 	Budget   time.Duration // wall-clock cap; hitting it yields exhaustive:false, not a failure
 	Env      []string      // extra environment for workers
@@ -85,8 +86,12 @@ type workerOut struct {
 	States string    `json:"states_file"`
 }
 
+// AtExit runs before the process exits (profiling hook).
+var AtExit = func() {}
+
 // Main is the entry point of cmd/vcheck.
 func Main() {
+	defer AtExit()
 	if len(os.Args) < 2 {
 		usage()
 	}
@@ -101,7 +106,9 @@ func Main() {
 		if len(os.Args) < 8 {
 			usage()
 		}
-		os.Exit(worker(os.Args[2], os.Args[3], os.Args[4], atoi(os.Args[5]), atoi(os.Args[6]), os.Args[7]))
+		rc := worker(os.Args[2], os.Args[3], os.Args[4], atoi(os.Args[5]), atoi(os.Args[6]), os.Args[7])
+		AtExit()
+		os.Exit(rc)
 	case "replay":
 		if len(os.Args) < 3 {
 			usage()
@@ -147,7 +154,7 @@ func worker(id, tier, part string, i, n int, outdir string) int {
 		fmt.Fprintln(os.Stderr, "unknown part", part)
 		return 2
 	}
-	opt := nd.Options{MaxDev: pt.MaxDev, Shard: i, NShards: n, CutDepth: pt.CutDepth}
+	opt := nd.Options{MaxDev: pt.MaxDev, Shard: i, NShards: n, CutDepth: pt.CutDepth, ShardLevels: pt.ShardLevels}
 	if opt.CutDepth == 0 {
 		opt.CutDepth = 2
 	}
